@@ -118,8 +118,23 @@ class ArmEval:
         l = place["l"]
         nm = fn.local_name(l)
         flds = [e.get("n") for e in place.get("pr", []) if isinstance(e, dict) and "f" in e]
-        if flds:
+        if flds and not str(flds[-1]).isdigit():
             return flds[-1]
+        # unnamed temporary copied from an operand binding: `_87 = copy (*src_reg)`
+        for _ in range(4):
+            if nm:
+                break
+            sd = fn.single_def(l)
+            if not (sd and sd[0] == "stmt" and sd[3]["r"]["k"] in ("use", "ref")):
+                break
+            src = sd[3]["r"].get("p") or sd[3]["r"].get("a", {}).get("p")
+            if not src:
+                break
+            f2 = [e.get("n") for e in src.get("pr", []) if isinstance(e, dict) and "f" in e]
+            if f2:
+                return f2[-1]
+            l = src["l"]
+            nm = fn.local_name(l)
         if nm:
             # a binding `dest = &((stmt as Add).dest)`: prefer the field name it was bound from
             sd = fn.single_def(l)
@@ -140,6 +155,10 @@ class ArmEval:
         p = op["p"]
         if not p.get("pr") and p["l"] in self.env:
             return self.env[p["l"]]
+        pr = p.get("pr", [])
+        if (len(pr) == 2 and isinstance(pr[0], dict) and "dc" in pr[0] and pr[0].get("n") in ("Continue", "Some", "Ok")
+                and isinstance(pr[1], dict) and pr[1].get("f") == 0 and p["l"] in self.env):
+            return self.env[p["l"]]     # payload of the `?` / Some(..) we are tracking
         # deref of an operand binding, e.g. `*offset` (u8)
         ty = self._place_ty(p)
         return BV.field(self.source_name(p), type_bits(ty))
